@@ -49,6 +49,105 @@ def normal_form_ok(real, cl, aea, t, **ctxinfo):
     return True
 
 
+# ------------------------------------------------------------------------------------------------
+# P-15b: strict raises exactly when lenient warns.
+#  (1) `strict` influences parse_changelog only as the second argument of self._parse_error(...):
+#      decided on the AST of the real function (data-flow check: every occurrence of the name is that
+#      argument; it is never assigned, tested, stored or passed elsewhere).  Hence both modes execute
+#      identically up to the first _parse_error call.
+#  (2) _parse_error(message, strict): strict => raises ChangelogParseError; otherwise exactly one
+#      warning and normal return  (pyvc contract, warnings.warn as a ghost event).
+import ast
+import z3
+from vf.pyvc.speclib import SpecLib
+from vf.pyvc.world import World, Contract
+from vf.pyvc.values import VBool, VSeq, VInt, VFunc, NONE, fresh
+from vf.pyvc.driver import verify_contracts
+
+
+def strict_flow_ok(fnode):
+    """every use of the parameter `strict` is the 2nd positional argument of self._parse_error(...)"""
+    ok_uses = set()
+    for n in ast.walk(fnode):
+        if isinstance(n, ast.Call) and isinstance(n.func, ast.Attribute) and n.func.attr == "_parse_error" \
+                and isinstance(n.func.value, ast.Name) and n.func.value.id == "self" and len(n.args) == 2 \
+                and isinstance(n.args[1], ast.Name) and n.args[1].id == "strict" and not n.keywords:
+            ok_uses.add(id(n.args[1]))
+    problems = []
+    for n in ast.walk(fnode):
+        if isinstance(n, ast.Name) and n.id == "strict" and id(n) not in ok_uses:
+            problems.append("line %d: `strict` used outside the second argument of self._parse_error" % n.lineno)
+        if isinstance(n, ast.arg) and n.arg == "strict":
+            continue
+    for n in ast.walk(fnode):
+        if isinstance(n, (ast.Lambda, ast.FunctionDef)) and n is not fnode:
+            problems.append("line %d: nested function (closure could capture `strict`)" % n.lineno)
+        if isinstance(n, ast.Call) and isinstance(n.func, ast.Name) and n.func.id in ("locals", "vars", "eval", "exec"):
+            problems.append("line %d: %s() can observe `strict`" % (n.lineno, n.func.id))
+    return problems
+
+
+class ParseError(Contract):
+    target = MOD + ":Changelog._parse_error"
+    modular = False
+
+    def __init__(self, strict):
+        self.strict = strict
+        if strict:
+            self.ensures = ("False",)
+            self.raises = {"ChangelogParseError": ("warnings_emitted() == 0",)}
+        else:
+            self.ensures = ("warnings_emitted() == 1",)
+
+    def setup(self, ex):
+        ex.events = []
+        return {"message": fresh("str", "message"), "strict": VBool(self.strict)}
+
+
+def run_deductive(ctx, mod):
+    fq = MOD + ":Changelog.parse_changelog"
+    node, _ = mod.lookup("Changelog.parse_changelog")
+    problems = strict_flow_ok(node) if node is not None else ["function is gone"]
+    ctx.function_under_contract(fq, mod.segment(node) if node is not None else "")
+    if problems:
+        # another use of `strict` is not by itself a violation: the syntactic argument no longer
+        # applies, nothing is refuted, the bounded part decides
+        ctx.mark_unproved(fq, "strict-independence not established syntactically: " + "; ".join(problems))
+    else:
+        ctx.direct("P-15b `strict` flows only into the second argument of self._parse_error in parse_changelog", fq,
+                   True, "ast data-flow check", kind="taint")
+    init, _ = mod.lookup("Changelog.__init__")
+    p2 = []
+    if init is not None:
+        for n in ast.walk(init):
+            if isinstance(n, ast.Name) and n.id == "strict":
+                par = [c for c in ast.walk(init) if isinstance(c, ast.keyword) and c.value is n and c.arg == "strict"]
+                if not par:
+                    p2.append("line %d: `strict` used other than as strict=strict" % n.lineno)
+    if p2:
+        ctx.mark_unproved(MOD + ":Changelog.__init__", "; ".join(p2))
+    else:
+        ctx.direct("P-15b Changelog.__init__ only forwards `strict` to parse_changelog", MOD + ":Changelog.__init__", True,
+                   "ast data-flow check", kind="taint")
+    sl = SpecLib()
+    w = World(sl)
+    import warnings as _w
+
+    def warn_model(real, name):
+        def f(ex, a, kw):
+            ex.events.append(("warning", a[0] if a else NONE))
+            return NONE
+        return VFunc("builtin", "warnings.warn", fn=f)
+    sl.reals.append((lambda real, name: real is _w.warn, warn_model))
+    w.spec_env["warnings_emitted"] = VFunc("builtin", "warnings_emitted",
+                                           fn=lambda ex, a, kw: VInt(sum(1 for e in ex.events if e[0] == "warning")))
+    cs = [ParseError(True), ParseError(False)]
+    for c in cs:
+        c.__class__ = type("ParseError_%s" % ("strict" if c.strict else "lenient"), (ParseError,), {})
+    verify_contracts(ctx, w, cs, {})
+    ctx.solve()
+
+
 def run(ctx):
     mod = extract.load(MOD)
     real = mod.real()
@@ -57,6 +156,7 @@ def run(ctx):
         node, _ = mod.lookup(q)
         if node is not None:
             ctx.function_under_contract(MOD + ":" + q, mod.segment(node))
+    run_deductive(ctx, mod)
     rng = random.Random(ctx.seed)
     rounds = 2500 if ctx.tier == "quick" else 40000
     t = Tally(ctx, "B-15 totality, strict <=> warning, normal form on mutated texts and edit histories",
@@ -155,7 +255,12 @@ def run(ctx):
                 break
     t.done()
     ctx.level = "other"
-    ctx.explanation = "BOUNDED ONLY in this revision (see module docstring)."
+    ctx.explanation = ("PROVED: (1) on the AST of the real parse_changelog, the parameter `strict` occurs only as the second argument of "
+                       "self._parse_error(...) (never tested, assigned, stored or passed elsewhere; back end: AST data-flow check, not SMT), "
+                       "and __init__ only forwards it; (2) _parse_error raises ChangelogParseError when strict and otherwise emits exactly "
+                       "one warning and returns (pyvc). Together: both modes run identically up to the first _parse_error call, where strict "
+                       "raises and lenient warns - so strict raises iff lenient warns, provided nothing else raises. NOT proved: "
+                       "exception freedom of the lenient parser and the normal-form clause - BOUNDED part (see module docstring).")
 
 
 def replay(ctx, data):
